@@ -201,11 +201,19 @@ def perform(m, defn, theta, x0, plan, rng, seed, max_steps=250):
                 g = t_start + np.linspace(0.0, horizon, npts)
             else:
                 g = t_start + np.concatenate([[0.0], np.sort(np.array([rng.uniform(0, horizon) for _ in range(npts - 1)]))])
-            tin = {"list": list(g), "tuple": tuple(g), "array": g}[p["grid"]]
         else:
             g = None
             tin = (t_start + horizon) if rng.random() < 0.7 else np.float64(t_start + horizon)
         s = (seed * 1000 + k) % (2 ** 31)
+        if g is not None:
+            # now and then one requested time occurs twice (a fine and a coarse grid joined at a shared breakpoint); decided
+            # from the run's seed so that the random stream of the generator is not disturbed
+            if s % 7 == 3 and len(g) >= 4:
+                j = len(g) // 2
+                g = np.concatenate([g[:j + 1], g[j:]])
+            tin = {"list": list(g), "tuple": tuple(g), "array": g}[p["grid"]]
+        # the option may be any truthy / falsy value (a numpy bool from a comparison, 1 / 0), not only the builtin constants
+        exact_arg = ((True, np.True_, 1) if p["exact"] else (False, np.False_, 0))[s % 3]
         # the horizon the USER asked for: the scalar, or the last requested time
         asked = float(g[-1]) if g is not None else float(tin)
         rec_run = {"plan": dict(p), "seed": s, "horizon": horizon, "grid": None if g is None else [float(v) for v in g],
@@ -220,9 +228,9 @@ def perform(m, defn, theta, x0, plan, rng, seed, max_steps=250):
                 if p.get("parallel"):
                     import dask
                     with dask.config.set(scheduler="synchronous"):
-                        out = m.solve_stochast(tin, 1, parallel=True, exact=p["exact"], full_output=True)
+                        out = m.solve_stochast(tin, 1, parallel=True, exact=exact_arg, full_output=True)
                 else:
-                    out = m.solve_stochast(tin, 1, exact=p["exact"], full_output=True)
+                    out = m.solve_stochast(tin, 1, exact=exact_arg, full_output=True)
                 rec_run["out"] = out
                 rec_run["raised"] = None
             except (Timeout, instrument.TooLong, instrument.Exploded):
